@@ -186,7 +186,8 @@ def body(ctx):
     n2 = after_exception(ctx, ex, prog, exc_states)
     ctx.extra['second_step_paths'] = n2
     ctx.twin('c07.twin: some frame is answered with a client exception', [], z3.BoolVal(len(exc_states) == 0))
-    import c08, c01
+    import c08, c01, c11
+    c11.scripted_histories(ctx, prog, io_executor(ctx, prog))    # a delivery naming a consumer that was cancelled is an illegal frame (UnknownConsumerTag) - whatever the implementation remembers about it
     c08.loop_done(ctx, prog)
     # the client exception's Close must be the last thing sent: nothing is appended after the seal (not even once the buffer has
     # drained), and writing the buffer out keeps the seal - the sealing obligations of C08 and the write loop of C01, decided here as well
